@@ -366,6 +366,37 @@ func (p *prog) stepPut(k *kmodel) {
 	p.ackWrite(k, "put", r, w.ID, pre)
 }
 
+// stepRefusedWrite sends an upload that is refused for a reason the gateway finds only while it handles the request
+// (a malformed tag set, a legal hold the bucket cannot give, a wrong Content-MD5). Nothing is recorded in the model.
+func (p *prog) stepRefusedWrite(k *kmodel) {
+	p.begin("refused-write", k)
+	w := p.newWrite()
+	cl, gi := p.mcl()
+	var hdr []string
+	kind := []string{"malformed-tagging", "legal-hold-without-lock", "wrong-content-md5"}[p.r.Intn(3)]
+	switch kind {
+	case "malformed-tagging":
+		hdr = append(w.Hdr(), "X-Amz-Tagging", "project=a=b")
+	case "legal-hold-without-lock":
+		hdr = append(w.Hdr(), "X-Amz-Object-Lock-Legal-Hold", "ON")
+	default:
+		hdr = append(w.Hdr(), "Content-MD5", s3c.MD5B64([]byte("other bytes")))
+	}
+	r := cl.PutObject(p.b, k.name, w.Body, hdr...)
+	p.tr("PUT %s (%s, write %d) via gw%d -> %s", k.name, kind, w.ID, gi, r)
+	if r.Err != nil {
+		p.transport("refused-write", r)
+		return
+	}
+	p.c.Eval(1)
+	if r.OK() {
+		// accepted after all (e.g. a bucket with object lock): an ordinary write
+		p.ackWrite(k, "put", r, w.ID, p.lastCtx)
+		return
+	}
+	p.distinct("refused-write", kind, k)
+}
+
 func (p *prog) stepCopy(k *kmodel) {
 	pre := p.begin("copy", k)
 	cl, gi := p.mcl()
@@ -1330,6 +1361,15 @@ func (p *prog) run() {
 			if p.state == "Suspended" {
 				wTog = 14
 			}
+		}
+		if r.Intn(12) == 0 {
+			// a write the gateway refuses: the history must be exactly what it was
+			p.stepRefusedWrite(k)
+			if p.stop {
+				break
+			}
+			p.verify(k)
+			continue
 		}
 		x := r.Intn(wPut + wCopy + wMPU + wDel + wDelV + wList + wTog)
 		if t := k.top(); avoidOntoMarker && x < wPut+wCopy+wMPU && t != nil && t.Marker {
